@@ -255,7 +255,10 @@ func (e *Engine) verifyFunc(pkgPath, key string) (fx *FuncCtx, err error) {
 		if r := recover(); r != nil {
 			switch x := r.(type) {
 			case unsupported:
-				err = fmt.Errorf("%s: %v", key, x)
+				// the body uses something the contracts do not cover (a call without contract, an unmodelled
+				// construct): the function cannot be verified against its contract as written - reported like a
+				// contract that no longer fits, not as a pass and not as a bare tool failure
+				err = &staleContractErr{key: key, msg: "body not verifiable against the contract: " + string(x)}
 			case specErr:
 				err = &staleContractErr{key: key, msg: x.msg}
 			default:
